@@ -9,8 +9,9 @@
               the file exists and is EMPTY from this moment on
      SBuild   _go_across / to_dict over every object of the resource: raises at
               the first unserialisable element (position p of the traversal)
-     SEncode  json.dumps of the dict / lxml serialisation of the tree
-     SWrite   stream.write + flush: the file holds the new bytes
+     SEncode  json.dumps of the dict (bytes exist before anything is written)
+     SWrite   stream.write + flush: the file holds the new bytes; when no SEncode
+              came before (lxml's tree.write(stream)) serialisation happens here
      SClose   uri.close_stream()
    An exception stops the save and keeps whatever the file holds at that
    moment (nothing in `save` catches it).  `Stuck` flags an order that cannot be
@@ -71,8 +72,12 @@ Definition exec_step (j : job) (fault : option nat) (s : step) (m : mach) : outc
     else if hits_encode j fault then (Raised, m)
     else (Done, {| m_file := m_file m; m_open := m_open m; m_tree := m_tree m; m_bytes := true |})
   | SWrite =>
-    if m_open m && m_bytes m
-    then (Done, {| m_file := Some (j_new j); m_open := true; m_tree := m_tree m; m_bytes := true |})
+    if m_open m && m_tree m
+    then
+      (* without a previous SEncode the document is serialised while it is written
+         (lxml's tree.write): an encoding fault then strikes on the opened target *)
+      if negb (m_bytes m) && hits_encode j fault then (Raised, m)
+      else (Done, {| m_file := Some (j_new j); m_open := true; m_tree := true; m_bytes := true |})
     else (Stuck, m)
   | SClose =>
     if m_open m
@@ -94,21 +99,16 @@ Definition run_save (j : job) (order : list step) (fault : option nat) (old : co
   : outcome * content :=
   let (o, m) := exec j fault order (mach_init old) in (o, m_file m).
 
-(* decidable sufficient condition for "a failing save keeps the file":
-   nothing that can raise comes after the stream has been opened *)
-Fixpoint no_raise_after_open (opened : bool) (order : list step) : bool :=
-  match order with
-  | [] => true
-  | SOpen :: rest => no_raise_after_open true rest
-  | SBuild :: rest => negb opened && no_raise_after_open opened rest
-  | SEncode :: rest => negb opened && no_raise_after_open opened rest
-  | _ :: rest => no_raise_after_open opened rest
-  end.
-
-Definition safe_order (order : list step) : bool := no_raise_after_open false order.
-
 (* the order of the code before the repair (kept as a recorded witness) *)
 Definition legacy_order : list step := [SOpen; SBuild; SEncode; SWrite; SClose].
+
+(* the shapes of order for which Props/C16.v has theorems *)
+Definition order_kind (order : list step) : nat :=
+  match order with
+  | [SBuild; SEncode; SOpen; SWrite; SClose] => 1   (* all that can raise precedes the opening *)
+  | [SBuild; SOpen; SWrite; SClose] => 2            (* built first; serialised while written *)
+  | _ => 0
+  end.
 
 (* ------------------------------------------------------------------ *)
 (* Part 2: ids and bytes                                               *)
